@@ -5,7 +5,7 @@ PROPS["C07"] = {
     "technique": "small-scope exhaustive enumeration of documents (the C02 generator without raw values) and of JSON texts (the C01 generator), "
                  "each taken through JSON, MessagePack and JSON->MessagePack round trips and compared with the model / with each other",
     "rule": "cases J+M = every document of the C02 enumeration without raw values (full leaf alphabet alone and in one-level containers, all byte values in "
-            "strings and keys, all trees with <= N nodes (quick 3, thorough 4), chains of depth 1..12 with the default nesting limit up to 10 and NestingLimit(255) "
+            "strings and keys, all trees with <= N nodes (quick 3, thorough 4; thorough adds every 5-node tree with a 6-leaf alphabet from depth 2, unsanitized build), chains of depth 1..12 with the default nesting limit up to 10 and NestingLimit(255) "
             "beyond; thorough adds depth 100 and 200), plus strings and containers on the MessagePack width boundaries; "
             "cases X = every text printed by the reference printer from all trees with <= 3 nodes over the C01 leaf and key alphabets (thorough adds all 4-node trees with the 13-leaf reduced alphabet below the root) "
             "(duplicate keys allowed). non-trivial = document with a container, string, float or integer beyond 32 bits; distinct by case key",
@@ -17,6 +17,8 @@ PROPS["C07"] = {
                     "(integral floats and integers of the same value coincide); texts that deserializeJson does not accept are C01's business and are skipped",
                     "default configuration"],
     "quick": [{"src": "checks/dx.cpp", "mode": "roundtrip", "arduino": True, "deps": _DX_DEPS}],
-    "thorough": [{"src": "checks/dx.cpp", "mode": "roundtrip", "arduino": True, "deps": _DX_DEPS}],
+    "thorough": [{"src": "checks/dx.cpp", "mode": "roundtrip", "arduino": True, "deps": _DX_DEPS},
+                 # second pass (J and M only): all 5-node trees (6-leaf alphabet below depth 2), -O2 build without sanitizers
+                 {"src": "checks/dx.cpp", "mode": "roundtrip", "flavour": "fast", "arduino": True, "deps": _DX_DEPS, "args": ["--exact=5", "--deepfrom=2"]}],
     "thorough_deadline": 780,
 }
